@@ -30,7 +30,7 @@ pub fn def() -> CheckDef {
         },
         gen,
         run,
-        rule: "the 'foreign writer' actor: drawn logical content (<= 300 entries, sibling sets up to 200 names incl. non-ASCII and supplementary-plane names, stream sizes around 64/4096/sector boundaries) laid out by the independent writer imgwr under a drawn layout plan - sector permutation 0-100 %, free sectors interleaved, fragmented and back-to-front chains, FAT/MiniFAT/directory sectors anywhere, directory slots permuted with unallocated gaps, balanced or insertion-built valid red-black sibling trees, fragmented mini stream, V3 or V4; the first case(s) of a run force > 109 FAT sectors (DIFAT sectors). Harness self-check first: imgck must find the image clean and read back the same content (else exit 2). Oracle: open and open_strict succeed; the API dump equals the content given to the writer in both modes; drawn partial reads agree; then a drawn mutation history (<= 15 ops) runs with C01's model, C02's reopen and C03's image rules after every step. Non-trivial: the image was opened and >= 1 mutation succeeded; distinct = distinct (seam log, final image) hash. One case in 16 is a DIFAT-boundary layout: a small file whose DIFAT is exactly full (109 + 127k FAT sectors, k = 1..3; version 4: 109 + 1023) followed by a write that grows the file across the next FAT-sector boundary, so that the library has to start the next DIFAT sector and link it to the end of the chain.",
+        rule: "the 'foreign writer' actor: drawn logical content (<= 300 entries, sibling sets up to 200 names incl. non-ASCII and supplementary-plane names, stream sizes around 64/4096/sector boundaries) laid out by the independent writer imgwr under a drawn layout plan - sector permutation 0-100 %, free sectors interleaved, fragmented and back-to-front chains, FAT/MiniFAT/directory sectors anywhere, directory slots permuted with unallocated gaps, balanced or insertion-built valid red-black sibling trees, fragmented mini stream, V3 or V4; the first case(s) of a run force > 109 FAT sectors (DIFAT sectors). Harness self-check first: imgck must find the image clean and read back the same content (else exit 2). Oracle: open and open_strict succeed; the API dump equals the content given to the writer in both modes; drawn partial reads agree; then a drawn mutation history (<= 15 ops) runs with C01's model, C02's reopen and C03's image rules after every step. Non-trivial: the image was opened and >= 1 mutation succeeded; distinct = distinct (seam log, final image) hash. One case in 16 is a DIFAT-boundary layout: a small file whose DIFAT is exactly full (109 + 127k FAT sectors, k = 1..3; version 4: 109 + 1023) followed by a write that grows the file across the next FAT-sector boundary, so that the library has to start the next DIFAT sector and link it to the end of the chain; every second one of these (one case in 32) also has one or two spare, empty DIFAT sectors already chained in behind the full part (k = 0..3), so that the new entry belongs in the first slot of an EXISTING sector.",
         assumptions: &["imgwr emits strictly spec-valid files (checked by imgck on every case); root creation time 0 and V3 size high bits 0 as the specification demands"],
         cpu_limit_s: 600,
         fault_kinds: "initial disk image written by a foreign implementation (layout plan drawn per case)",
@@ -70,7 +70,15 @@ pub fn gen(seed: u64, idx: u64, tier: Tier) -> Case {
         plan.library_like_trees = rng.chance(1, 2);
         let per = if version == 3 { 127 } else { 1023 };
         plan.extra_fat_sectors = 0;
-        plan.total_fat_sectors = 109 + per * rng.range(1, if version == 3 { 3 } else { 1 }) as u32;
+        // k = 0: the header's 109 slots exactly full (only together with a spare DIFAT sector,
+        // otherwise it is the ordinary "first DIFAT sector" growth that C02/C03 do)
+        let spare = idx % 32 == 25;
+        plan.total_fat_sectors = 109 + per * rng.range(if spare { 0 } else { 1 }, if version == 3 { 3 } else { 1 }) as u32;
+        if spare {
+            // ... and one or two empty DIFAT sectors already chained in behind the full ones:
+            // the next FAT sector belongs in the FIRST slot of the first spare sector
+            plan.spare_difat_sectors = rng.range(1, 2) as u32;
+        }
     }
     let (max_entries, max_stream) = if difat_boundary {
         (6, 3000)
@@ -181,6 +189,9 @@ pub fn run(case: &Case, known: &BTreeSet<String>) -> Outcome {
         }
     }
     runner::layout_probes(&parsed.layout, &mut ctx.out.stats);
+    if plan.spare_difat_sectors > 0 {
+        ctx.out.stats.probe("spare_empty_difat_sector_behind_a_full_difat");
+    }
     // the content in CFB listing order = what the library must expose
     let model0 = Model::from_dump(&content, case.version);
     let want = model0.dump();
